@@ -262,6 +262,11 @@ func runC14(c *Ctx) {
 			for i, at := range sites {
 				l := heldAt(fn, fc.locks, at, "Lock")
 				held := l != nil && strings.Contains(l.mu, "Mutex")
+				if !held && c.P.IsNewHelper(fn) {
+					// a helper outside the vocabulary that requires the lock: every call of it is made
+					// with the mutex held
+					held = heldAtEveryCall(c, fn, 0)
+				}
 				if isW[i] {
 					nW++
 					c.Check(held, "C14.R1", shortFn(fn)+": write of the compiled pattern / invalid flag holds the rule mutex", at.Pos(), "dominated by f.Lock(), released by the deferred Unlock",
@@ -599,4 +604,52 @@ func runC14(c *Ctx) {
 		c.Check(bad == "", "C14.R5", "queries write no shared state besides the lock-protected memo states", token.NoPos, fmt.Sprintf("ownership analysis over %d query-reachable functions", len(fns)), bad)
 	}
 	_ = types.Typ
+}
+
+// heldAtEveryCall: fn is called only statically, at least once, and every call site holds a mutex
+// (directly, or the calling helper is itself called only with a mutex held).
+func heldAtEveryCall(c *Ctx, fn *ssa.Function, depth int) bool {
+	if depth > 3 {
+		return false
+	}
+	n := 0
+	ok := true
+	for _, caller := range c.P.AllLibFuncs() {
+		if caller.Blocks == nil {
+			continue
+		}
+		var locks []lockCall
+		haveLocks := false
+		eachInstr(caller, func(_ *ssa.BasicBlock, in ssa.Instruction) {
+			// taken as a value: callers unknown
+			for _, op := range in.Operands(nil) {
+				if op != nil && *op == ssa.Value(fn) {
+					if ci, isCall := in.(ssa.CallInstruction); !isCall || ci.Common().StaticCallee() != fn {
+						ok = false
+					}
+				}
+			}
+			ci, isCall := in.(ssa.CallInstruction)
+			if !isCall || ci.Common().StaticCallee() != fn {
+				return
+			}
+			n++
+			if !haveLocks {
+				g := NewGate(c.P)
+				g.Inline = inlineOnly()
+				sm := g.Eval(caller)
+				locks = locksOf(caller, sm, g.U)
+				haveLocks = true
+			}
+			l := heldAt(caller, locks, in, "Lock")
+			if l != nil && strings.Contains(l.mu, "Mutex") {
+				return
+			}
+			if c.P.IsNewHelper(caller) && heldAtEveryCall(c, caller, depth+1) {
+				return
+			}
+			ok = false
+		})
+	}
+	return ok && n > 0
 }
